@@ -497,6 +497,9 @@ class Exec(Path):
         fn = self.func_stack[-1]
         label = f"loop{k}"
         invs = spec.get("invariant", [])
+        for gname, gexpr in spec.get("capture", {}).items():
+            v = self.eval_contract_expr(gexpr, want_bool=False)                   # ghost constant: value just before the loop
+            self.env[gname] = self.import_value(v, self.heap, {}) if isinstance(v, VRef) else v
         for gname, gexpr in spec.get("ghost_init", {}).items():
             self.env[gname] = self.eval_contract_expr(gexpr, want_bool=False)     # ghost accumulator
         # 1. establish
@@ -938,6 +941,9 @@ class Exec(Path):
                     for c in self.repo.mro(ci):
                         if attr in c.nested:
                             return VClass(c.nested[attr].qualname, c.nested[attr])
+                    if self.pure:
+                        # total reading in contract expressions: a deleted / never-set attribute is an unconstrained value
+                        return VBox(self.fresh(f"no_attr_{attr}", PV))
                 else:
                     hook = self.reg.methods.get(("obj:" + ci, "@" + attr))
                     if hook is not None:
@@ -1258,6 +1264,12 @@ class Exec(Path):
         return VBool(result)
 
     def num_pair(self, a, b):
+        if self.pure:
+            # total reading in contract expressions: a boxed operand next to a number is read as a number of that kind
+            if isinstance(a, VBox) and isinstance(b, (VInt, VBool, VFloat, VBox)):
+                a = VFloat(PV.fval(a.t)) if isinstance(b, VFloat) else VInt(PV.ival(a.t))
+            if isinstance(b, VBox) and isinstance(a, (VInt, VBool, VFloat)):
+                b = VFloat(PV.fval(b.t)) if isinstance(a, VFloat) else VInt(PV.ival(b.t))
         if isinstance(a, VBox):
             a = self.unbox(a)
         if isinstance(b, VBox):
